@@ -110,7 +110,14 @@ def checkPost (σ : St) (now : Int) (batch : List PostAlert) (code : String) (cu
         match findA cur a.labels with
         | none => [Msg.propfail "batch_best_effort" "valid-dropped" s!"{ls} payload={a.payload}"]
         | some c =>
-          if nSame ≠ 1 then [Msg.tag "post:same-labels-twice-in-batch"]
+          if nSame ≠ 1 then
+            -- the label set occurs several times in the batch (all stamped with the same receive time): what is stored
+            -- carries the payload of the LAST valid one (putValue_identity: the submission wins a tie of UpdatedAt)
+            let lastSame := (validOnes.filter fun (_, b) => b.labels == a.labels).getLast?.map (·.2.payload)
+            [Msg.tag "post:same-labels-twice-in-batch"] ++
+            (if lastSame = some a.payload ∧ ¬ (c.updatedAt = now ∧ c.payload = a.payload) then
+               [Msg.propfail "putValue_identity" "same-instant-older-wins" s!"{ls}: submitted last in the batch with payload={a.payload}, stored={showA c}"]
+             else [])
           else
             (if c.updatedAt = now ∧ c.payload = a.payload then [] else [Msg.propfail "batch_best_effort" "valid-not-applied" s!"{ls} payload={a.payload} stored={showA c}"])
             ++ (match findA old a.labels with
